@@ -167,15 +167,15 @@ def run (a : ATx) : List Op → ATx × List Out
 /-- the store after commit, key by key: an overlay entry wins (keeping its own deadline; one written
 without TTL inherits the deadline of the store's live entry unless that entry is being deleted), a
 pending delete removes, anything else is untouched -/
-def commit (a : ATx) : TtlMap :=
-  { now := a.b.now
-    m := fun k =>
-      match a.ov.find k with
-      | some e =>
-        some ⟨e.val, match e.dl with
-          | some d => some d
-          | none => if k ∈ a.del then none else (a.b.find k).bind (·.dl)⟩
-      | none => if k ∈ a.del then none else a.b.find k }
+def commitAt (a : ATx) (k : Key) : Option Entry :=
+  match a.ov.find k with
+  | some e =>
+    some ⟨e.val, match e.dl with
+      | some d => some d
+      | none => if k ∈ a.del then none else (a.b.find k).bind (·.dl)⟩
+  | none => if k ∈ a.del then none else a.b.find k
+
+def commit (a : ATx) : TtlMap := { now := a.b.now, m := a.commitAt }
 
 end ATx
 end CashewsVerif
